@@ -40,6 +40,19 @@ CHECKS = {
          "Every raw program of the space, bare, with every single irregularity and every pair (small shapes), through the real normalize_basic; the listed IR invariants, no panic in normalization or CFG construction, and idempotence are checked.",
          "Trusted: invariant checks in c09.rs. Extractor TID name spaces assumed.",
          "DESIGN.md §C09"),
+ "C13": (MC, "exhaustive bounded enumeration of single-function programs (CFG skeletons x slot forms x condition forms) analysed by the real pipeline and executed by an independent interpreter from every initial state of a state alphabet",
+         "Every program of the space is normalized, its signatures and pointer inference computed by the real code, and executed concretely from every combination of the initial-value alphabet for the registers it can read; at every reached block start the analysis must have a state and every register's concrete value must lie in the concretisation of its abstract value (parameter ids as entry values, stack id as entry SP); defs treated as certain NULL dereference must not complete.",
+         "Trusted: props::ir_interp, the gamma reader in shared/c13_gamma.rs. Runs that access addresses in (-1024,1024) or program-computed integer addresses stop and prove nothing (counted).",
+         "DESIGN.md §C13"),
+ "C14": (MC, "exhaustive bounded enumeration of two-function programs (skeletons x slot alphabet x callee family) through the real signature analysis, against an explicit-state path-exploring reference (one-sided)",
+         "Every program goes through the real normalize / CFG / compute_function_signatures; the reference explores (block, register tokens, frame slots) and computes the parameter registers whose entry value can be read; that set must be contained in the reported parameters.",
+         "Trusted: the path model in shared/c14_model.rs (every modelling choice weakens the demand). One known finding (reads on non-returning paths of an internal callee are not propagated to the caller).",
+         "DESIGN.md §C14"),
+ "C15": (MC, "exhaustive bounded enumeration of programs with allocation calls through the real pipeline and CWE476 check, against explicit-state path exploration (L <= reported <= P sandwich)",
+         "Every program runs through normalize, CFG, signatures, pointer inference and the real check with the shipped configuration; per source the reference explores (block, carrying set) for the path-based statement P and the merged-set lower bound L; reports outside [L,P] are violations, the join-merge gap is a known finding.",
+         "Trusted: the path model in shared/c15_model.rs. Programs where the value flows through memory are out of scope (skipped, counted).",
+         "DESIGN.md §C15"),
+
  "C16": (MC, "exhaustive bounded enumeration of extern tables x call-site layouts x configurations through the real CWE_MODULE.run entry points, against a transcription of the statement",
          "All extern tables of <=4 symbols over an 8-symbol universe, call-site layouts over two functions, all configuration lists of <=2 entries; warnings compared as multisets.",
          "Trusted: the oracle in c16.rs. Symbol names unique per table; wording of descriptions not judged.",
